@@ -115,7 +115,8 @@ def build_real(shape):
             m.addConstr(expr >= float(c["rhs"]), name="CSIDE")
     for res, fs in shape["prods"]:
         m.prod(V[res], [V[f] for f in fs])
-    coeffs = {m.varName(e): float(shape["rows"][i]["weight"]) for i, e in enumerate(E)}
+    # weights keyed by the name the variable was requested under, as aldy's callers do (`coeffs={"E_pce": ...}` in cn.py)
+    coeffs = {f"E_{i}": float(shape["rows"][i]["weight"]) for i, e in enumerate(E)}
     obj = m.abssum(E, coeffs=coeffs)
     obj += m.quicksum(float(k) * V[v] for k, v in shape["lin"])
     m.setObjective(obj)
